@@ -574,8 +574,23 @@ func c12Digest(r *rand.Rand) []byte {
 	return b
 }
 
+// bundle sizes: small ones mostly, and the sizes around 8 / 16 / 64 and a large one now and then (every
+// forwarded hash is compared)
+func c12BundleSize(r *rand.Rand) int {
+	switch x := r.Intn(120); {
+	case x < 70:
+		return 1 + r.Intn(3)
+	case x < 115:
+		return []int{2, 8, 9, 10, 17}[r.Intn(5)]
+	case x < 118:
+		return 64
+	default:
+		return 200
+	}
+}
+
 func c12GoodBid(r *rand.Rand, tag int, digest []byte) *c12Bid {
-	n := 1 + r.Intn(3)
+	n := c12BundleSize(r)
 	hs := make([]string, n)
 	for i := range hs {
 		hs[i] = c12Hash(r)
@@ -678,6 +693,24 @@ func c12Generate(r *rand.Rand, class string) c12In {
 			default:
 				ops = append(ops, dec(r.Intn(2), dA, []int32{1, 2}[r.Intn(2)]))
 			}
+		}
+		return c12In{ops}
+	case "resubmit":
+		// the same digest is submitted again while the first call, already taken by the engine, still holds its
+		// context; then one of the contexts ends; the decision goes to the call whose entry is the current one
+		ops := []c12Op{sub(1, c12GoodBid(r, 1, dA)), take, sub(2, c12GoodBid(r, 2, dA)), take}
+		if r.Intn(3) == 0 {
+			ops = append(ops, sub(3, c12GoodBid(r, 3, dA)), take)
+		}
+		switch r.Intn(4) {
+		case 0:
+			ops = append(ops, c12Op{Kind: "abandon", H: 1}, dec(0, dA, 1))
+		case 1:
+			ops = append(ops, c12Op{Kind: "abandon", H: 1}, c12Op{Kind: "abandon", H: 2}, dec(0, dA, 2))
+		case 2:
+			ops = append(ops, dec(0, dA, 1), c12Op{Kind: "abandon", H: 1}, dec(1, dA, 2))
+		default:
+			ops = append(ops, c12Op{Kind: "abandon", H: 2}, dec(0, dA, []int32{1, 2}[r.Intn(2)]), dec(0, dA, 1))
 		}
 		return c12In{ops}
 	case "no-engine":
@@ -838,7 +871,7 @@ func TestVerifC12(t *testing.T) {
 	for i := 0; i < 40; i++ {
 		run("invalid-bid", c12Generate(e.rng, "invalid-bid"))
 	}
-	classes := []string{"single", "decisions", "equal-digests", "cancel", "no-engine", "digest-variants", "gated-streams", "random", "random"}
+	classes := []string{"single", "decisions", "equal-digests", "resubmit", "cancel", "no-engine", "digest-variants", "gated-streams", "random", "random"}
 	for i := 0; i < e.N; i++ {
 		for _, c := range classes {
 			run(c, c12Generate(e.rng, c))
